@@ -15,7 +15,7 @@ THEOREMS = ["Econf.C19_block_shown", "Econf.C19_key_in_block", "Econf.C19_key_sh
 LEAF_FNS = ["replace_str"]
 SHRINK = False
 RULE = ("two-layer trees under $ECONFTOOL_ROOT (vendor /usr/etc, local /etc) and single absolute files x --delimiters/--comment choices "
-        "x files with only group-less keys, only sections, both, key-less sections, multi-line values, UTF-8 and other non-ASCII bytes and control characters in names, keys and values, malformed lines: the freshly built "
+        "x files with only group-less keys, only sections, both, key-less sections, multi-line values, UTF-8 and other non-ASCII bytes, control characters and per cent signs in names, keys and values, files that are symbolic links to regular files elsewhere, malformed lines: the freshly built "
         "econftool (ASan) is run with show, syntax and cat; its output is compared with the library's result for the same tree "
         "(harness), with the Lean model of the printer, and decoded back into sections/keys/values; distinct by (tree, arguments)")
 HEADER_LINES = 4
@@ -29,6 +29,8 @@ CONTENTS = [b"retry=5\nhost=example\ntimeout=30\nlog_target=syslog\nfvn=r\n", b"
             # bytes beyond ASCII (UTF-8 text, bytes that are no text at all) and control characters in names, keys and values
             b"motd=Gr\xc3\xbc\xc3\x9fe\n[se\xc3\xb1al]\ngr\xc3\xb6\xc3\x9fe=12\ntitle=Caf\xc3\xa9 \xe2\x80\x93 men\xc3\xba\n",
             b"raw=\xff\xfe\x80\n[\xe6\x97\xa5\xe6\x9c\xac]\nk=\xe8\xaa\x9e\n  \xc3\x96l\n", b"esc=\x1b[1mbold\x1b[0m\nbell=a\x07b\x01\n",
+            # per cent signs (what a printf format would take for conversions) in keys, values and section names
+            b"%users=staff\ncpu%d=75\nmem%u=80\n100%=full\n[load%5.1f]\nrate=5%\n%s_fmt=%s %n %%\n",
             # the other comment character of a two-character --comment set
             b"; note\nk=v ; t\n[S]\n; d\nk2=w\n# e\nk3=x # f\n"]
 BAD = [b"[broken\nx=1\n", b"a=1\n[S] tail\n", b"a=1\nb=2\n[]\n", b"k v\n"]
@@ -70,16 +72,36 @@ def make(rng, sid, harness, tmpbase):
         if bad and files:
             k = rng.choice(sorted(files))
             files[k] = rng.choice(BAD)
+    # one of the files is sometimes a symbolic link (with a relative target) to a regular file kept somewhere else: the library
+    # follows it, so the tool has to show what is in it
+    links = {}
+    if files and rng.random() < 0.3:
+        k = rng.choice(sorted(files))
+        if len(k) < 200:
+            store = b"/srv/available/" + k.replace(b"/", b"_")
+            links[k] = b"../" * (k.count(b"/") - 1) + store[1:]
     root = tempfile.mkdtemp(prefix="t", dir=tmpbase)
     for p, c in files.items():
         full = root + p.decode()
         os.makedirs(os.path.dirname(full), exist_ok=True)
+        if p in links:
+            tgt = os.path.normpath(os.path.join(os.path.dirname(full), links[p].decode()))
+            os.makedirs(os.path.dirname(tgt), exist_ok=True)
+            with open(tgt, "wb") as f:
+                f.write(c)
+            os.symlink(links[p].decode(), full)
+            continue
         with open(full, "wb") as f:
             f.write(c)
     targ = ["--delimiters=" + dspell, "--comment=" + comment.decode()]
-    s = Scenario(sid, {"tool": True, "single": single, "files": files, "delim": delim, "comment": comment, "impl_only": True})
+    s = Scenario(sid, {"tool": True, "single": single, "files": files, "delim": delim, "comment": comment, "impl_only": True, "links": links})
     for p, c in sorted(files.items()):
-        s.file((root.encode() + p) if single else p, c)
+        q = (root.encode() + p) if single else p
+        if p in links:
+            s.file(os.path.normpath(os.path.join(os.path.dirname(q), links[p])), c)
+            s.link(q, links[p])
+        else:
+            s.file(q, c)
     if single:
         one = sorted(files, key=len)[-1]         # the file itself (its neighbour with the shorter name is not asked for)
         name = root + one.decode()
@@ -202,7 +224,7 @@ def nontrivial(s, lines):
     m = s.meta
     if not m.get("tool"):
         return None
-    return (tuple(sorted(m["files"].items())), m["delim"], m["comment"], m["single"])
+    return (tuple(sorted(m["files"].items())), m["delim"], m["comment"], m["single"], tuple(sorted(m.get("links", {}))))
 
 
 def histogram(s, lines):
@@ -210,6 +232,8 @@ def histogram(s, lines):
     if not m.get("tool"):
         return ["corpus"]
     ks = ["single_file" if m["single"] else "tree_%d_files" % len(m["files"]), "delim_%s" % m["delim"].decode()]
+    if m.get("links"):
+        ks.append("with_symlinked_file")
     ks.append("library_" + lines[0].split()[1] if lines else "noresult")
     allc = b"".join(m["files"].values())
     first = [c.split(b"\n")[0] for c in m["files"].values() if c]
